@@ -138,10 +138,30 @@ class DictWriter:
                 "binding": self.write_binding(variable.binding),
                 "amount": variable.amount,
                 "alignment": variable.alignment,
+                "value": self.write_initial_value(variable.value),
             }
         else:  # pragma: no cover
             raise NotImplementedError(str(variable))
         return json_variable
+
+    def write_initial_value(self, value):
+        """Initial value of a variable: data and references to labels."""
+        if value is None:
+            return None
+        json_parts = []
+        for part in value:
+            if isinstance(part, bytes):
+                json_part = {"kind": "data", "data": bin2asc(part)}
+            elif isinstance(part, tuple) and isinstance(part[0], ir.Typ):
+                json_part = {
+                    "kind": "reference",
+                    "type": self.write_type(part[0]),
+                    "name": part[1],
+                }
+            else:  # pragma: no cover
+                raise NotImplementedError(str(part))
+            json_parts.append(json_part)
+        return json_parts
 
     def write_subroutine(self, subroutine):
         json_binding = self.write_binding(subroutine.binding)
@@ -299,6 +319,19 @@ class DictWriter:
                 "callee": self.write_value_ref(instruction.callee),
                 "arguments": json_arguments,
             }
+        elif isinstance(instruction, ir.CopyBlob):
+            json_instruction = {
+                "kind": "copyblob",
+                "dst": self.write_value_ref(instruction.dst),
+                "src": self.write_value_ref(instruction.src),
+                "amount": instruction.amount,
+            }
+        elif isinstance(instruction, ir.Undefined):
+            json_instruction = {
+                "kind": "undefined",
+                "name": instruction.name,
+                "type": self.write_type(instruction.ty),
+            }
         elif isinstance(instruction, ir.Phi):
             json_phi_inputs = []
             for phi_input_block, phi_input_value in instruction.inputs.items():
@@ -417,9 +450,25 @@ class DictReader:
         binding = self.construct_binding(json_variable["binding"])
         amount = json_variable["amount"]
         alignment = json_variable["alignment"]
-        variable = ir.Variable(name, binding, amount, alignment)
+        value = self.construct_initial_value(json_variable.get("value"))
+        variable = ir.Variable(name, binding, amount, alignment, value=value)
         self.register_value(variable)
         return variable
+
+    def construct_initial_value(self, json_parts):
+        if json_parts is None:
+            return None
+        parts = []
+        for json_part in json_parts:
+            kind = json_part["kind"]
+            if kind == "data":
+                part = asc2bin(json_part["data"])
+            elif kind == "reference":
+                part = (self.get_type(json_part["type"]), json_part["name"])
+            else:  # pragma: no cover
+                raise NotImplementedError(kind)
+            parts.append(part)
+        return tuple(parts)
 
     def construct_subroutine(self, json_subroutine):
         name = json_subroutine["name"]
@@ -470,12 +519,24 @@ class DictReader:
             name = json_instruction["name"]
             ty = self.get_type(json_instruction["type"])
             address = self.get_value_ref(json_instruction["address"])
-            instruction = ir.Load(address, name, ty)
+            volatile = json_instruction.get("volatile", False)
+            instruction = ir.Load(address, name, ty, volatile=volatile)
             self.register_value(instruction)
         elif itype == "store":
             value = self.get_value_ref(json_instruction["value"])
             address = self.get_value_ref(json_instruction["address"])
-            instruction = ir.Store(value, address)
+            volatile = json_instruction.get("volatile", False)
+            instruction = ir.Store(value, address, volatile=volatile)
+        elif itype == "copyblob":
+            dst = self.get_value_ref(json_instruction["dst"])
+            src = self.get_value_ref(json_instruction["src"])
+            amount = json_instruction["amount"]
+            instruction = ir.CopyBlob(dst, src, amount)
+        elif itype == "undefined":
+            name = json_instruction["name"]
+            ty = self.get_type(json_instruction["type"])
+            instruction = ir.Undefined(name, ty)
+            self.register_value(instruction)
         elif itype == "alloc":
             name = json_instruction["name"]
             amount = json_instruction["size"]
@@ -491,15 +552,15 @@ class DictReader:
         elif itype == "binop":
             name = json_instruction["name"]
             ty = self.get_type(json_instruction["type"])
-            a = self.get_value_ref(json_instruction["a"])
+            a = self.get_value_ref(json_instruction["a"], ty=ty)
             operation = json_instruction["operation"]
-            b = self.get_value_ref(json_instruction["b"])
+            b = self.get_value_ref(json_instruction["b"], ty=ty)
             instruction = ir.Binop(a, operation, b, name, ty)
             self.register_value(instruction)
         elif itype == "unop":
             name = json_instruction["name"]
             ty = self.get_type(json_instruction["type"])
-            a = self.get_value_ref(json_instruction["a"])
+            a = self.get_value_ref(json_instruction["a"], ty=ty)
             operation = json_instruction["operation"]
             instruction = ir.Unop(operation, a, name, ty)
             self.register_value(instruction)
